@@ -287,7 +287,8 @@ class AnnotationPrinter(TypeStrVisitor):
         else:
             self.stubgen.import_tracker.require_name(s)
         if t.args:
-            s += f"[{self.args_str(t.args)}]"
+            literal = fullname in ("typing.Literal", "typing_extensions.Literal")
+            s += f"[{self.args_str(t.args, literal=literal)}]"
         elif t.empty_tuple_index:
             s += "[()]"
         return s
@@ -306,15 +307,25 @@ class AnnotationPrinter(TypeStrVisitor):
             return f"*{t.type.accept(self)}"
         return super().visit_unpack_type(t)
 
-    def args_str(self, args: Iterable[Type]) -> str:
+    def args_str(self, args: Iterable[Type], literal: bool = False) -> str:
         """Convert an array of arguments to strings and join the results with commas.
 
         The main difference from list_str is the preservation of quotes for string
-        arguments
+        arguments. The string arguments of Literal[...] are values, not forward
+        references, and are reproduced as written.
         """
         types = ["builtins.bytes", "builtins.str"]
         res = []
         for arg in args:
+            if (
+                literal
+                and isinstance(arg, UnboundType)
+                and arg.original_str_expr is not None
+                and arg.original_str_fallback in types
+            ):
+                prefix = "b" if arg.original_str_fallback == "builtins.bytes" else ""
+                res.append(prefix + repr(arg.original_str_expr))
+                continue
             arg_str = arg.accept(self)
             if isinstance(arg, UnboundType) and arg.original_str_fallback in types:
                 res.append(f"'{arg_str}'")
